@@ -77,6 +77,25 @@ def case_to_sexp(c):
     return sx(items)
 
 
+def _tree_sx(t):
+    if t[0] == "sec":
+        return ["sec", t[1], t[2], t[3], t[4], True if t[5] == "str" else t[5]]
+    if len(t) == 5:
+        return ["strat", t[1], t[2], [_tree_sx(k) for k in t[3]], t[4]]
+    return ["strat", t[1], t[2], [_tree_sx(k) for k in t[3]]]
+
+
+def bt_case_to_sexp(c):
+    def frame(f):
+        return None if f is None else [[k, col] for k, col in f]
+    items = ["backtest", c["name"], ["dates", c["dates"]], ["intpos", c["intpos"]], ["comm"] + list(c["comm"]),
+             ["prices", frame(c["prices"])], ["bidoffer", frame(c.get("bidoffer"))],
+             ["coupons", frame(c.get("coupons"))], ["cost_long", frame(c.get("cost_long"))],
+             ["cost_short", frame(c.get("cost_short"))], ["adata", c.get("adata", [])],
+             ["capital", c["capital"]], ["tree", _tree_sx(c["tree"])]]
+    return sx(items)
+
+
 # ---------------------------------------------------------------- dumps
 def parse_dump(text):
     """-> {case name: {"build": str, "steps": [ {"status": [..], "state": {key: [tokens]}} ]}}"""
